@@ -351,7 +351,9 @@ def identity_key_issues(l, r, aoh_key=None):
     document's sequence, the epilog does not say which.  Returns a subset of
       {"missing":   some record of a group lacks (one of) the identity field(s),
        "duplicate": two records of one sequence share an identity value,
-       "bool-int":  two identity values of one sequence are distinct only as true/1}.
+       "bool-int":  two identity values of one sequence are distinct only as true/1,
+       "uninferable": a first record is {} (no field to infer), "ambiguous": the two documents' first records
+                    suggest different fields -- with either, matching by key is not defined by the documentation}.
     Only used to *name* the cause of a disagreement."""
     groups = {}
 
@@ -376,8 +378,11 @@ def identity_key_issues(l, r, aoh_key=None):
                 f = next(iter(s[0]), None)
                 if f is None:
                     issues.add("missing")       # first record is {}: no field to infer
+                    issues.add("uninferable")
                 elif f not in fields:
                     fields.append(f)
+        if aoh_key is None and len(fields) > 1:
+            issues.add("ambiguous")             # the first records of the two documents suggest different fields
         for s in seqs:
             for f in fields:
                 vals = []
